@@ -10,9 +10,10 @@
      q_concat_dedup_by_name = true  the candidate list of the whole file is de-duplicated by variable name;
                                     false: one report per loop and variable ("One violation per loop",
                                     docs/performance-linter.md), i.e. emitted at the loop node
-     q_concat_name_table = true     a variable whose lower-cased NAME is in STRING_VARIABLE_PATTERNS (result, msg,
-                                    text ...) counts as a string; false: names carry no meaning, so that renaming
-                                    identifiers cannot change the verdict
+     q_concat_name_table = true     a variable counts as a string when its lower-cased NAME is in the code's table
+                                    STRING_VARIABLE_PATTERNS; false: when it is one of the names the documentation
+                                    lists (docs/performance-linter.md "Variables named: ..."), so that renaming any
+                                    other identifier cannot change the verdict
    With the first two flags off the detector is a walker (cl_step / cl_emit).  Class names, field lists, the name
    table, loop type words, rule id and message format come from Gen/EmbedGen.v.  No proofs in this file. *)
 From TL Require Import Lib.Base Lib.GenTypes Gen.EmbedGen Model.Embed Model.PrintStmt.
@@ -123,9 +124,10 @@ Definition is_string_binop (v : ast) : bool :=
      | _, _, _ => false
      end.
 (* _is_likely_string_variable *)
+Definition name_table (q : cquirks) : list string := if q_concat_name_table q then sc_patterns else sc_doc_patterns.
 Definition likely (q : cquirks) (sets : list entry) (x : string) (v : ast) : bool :=
   if in_nons x sets then false
-  else in_strs x sets || (q_concat_name_table q && smem (lower x) sc_patterns)
+  else in_strs x sets || smem (lower x) (name_table q)
        || is_string_value v || is_str_call v || is_string_binop v.
 
 (* a candidate at this node, inside a loop of type l whose body resets the names in reset *)
